@@ -1075,6 +1075,7 @@ Theorem allocate_mini_within_capacity : forall s v mids r rids dids,
   d_len r <= MINI_SECTOR_LEN * lenN (minifat s) ->
   chain_ids_of (fat s) (d_start r) = Ok rids ->
   d_len r < slen s * lenN rids ->
+  d_len r + MINI_SECTOR_LEN <= N.min (MAX_REGULAR_SECTOR * slen s) (stream_len_mask (ver s)) ->
   lenN (utf16 (d_name r)) <= MAX_NAME_LEN ->
   chain_ids_of (fat s) (dir_start s) = Ok dids -> good_chain s dids -> dids <> [] ->
   exists s',
@@ -1085,7 +1086,7 @@ Theorem allocate_mini_within_capacity : forall s v mids r rids dids,
     dirs s' = updN (dirs s) ROOT_STREAM_ID
                 (set_start_len r (d_start r) (d_len r + MINI_SECTOR_LEN)).
 Proof.
-  intros s v mids r rids dids Hm Hstart Hmc Hmg Hmcap Hr Hrs Hrl Hrfit Hrc Hrcap Hname Hdc Hdg Hdne.
+  intros s v mids r rids dids Hm Hstart Hmc Hmg Hmcap Hr Hrs Hrl Hrfit Hrc Hrcap Hbound Hname Hdc Hdg Hdne.
   pose proof (fps_slen s) as Hfs. unfold fat_per_sector in Hfs.
   unfold allocate_mini_sector. rewrite bind_get.
   assert (Hpop : pop_free_mini (S (length (mfree s))) s = (s, Ok None)).
@@ -1111,6 +1112,9 @@ Proof.
   { unfold append_mini_sector, root_entry.
     rewrite (bind_exec _ _ _ _ _ (dir_entry_exec s _ r Hr)).
     rewrite Hrl. cbn [N.eqb negb]. rewrite bind_ret.
+    rewrite bind_get.
+    destruct (N.min (MAX_REGULAR_SECTOR * slen s) (stream_len_mask (ver s)) <? d_len r + MINI_SECTOR_LEN) eqn:Eb;
+      [apply N.ltb_lt in Eb; lia|]. rewrite bind_ret.
     destruct (d_start r =? END_OF_CHAIN) eqn:Er; [apply N.eqb_eq in Er; contradiction|].
     assert (Hns : (do c <- chain_new (d_start r) IZero;
                    do s0 <- get;
@@ -1325,6 +1329,7 @@ Module Examples.
     - rewrite Hrl. vm_compute. discriminate.
     - rewrite Hrs. vm_compute. reflexivity.
     - rewrite Hrl. vm_compute. reflexivity.
+    - rewrite Hrl. vm_compute. discriminate.
     - rewrite Hrn. vm_compute. discriminate.
     - vm_compute. reflexivity.
     - apply good_chain1; vm_compute; reflexivity.
